@@ -40,6 +40,7 @@ type Step struct {
 	Opt  bool  `json:"opt,omitempty"`  // opMeter / opTracer: with version, schema URL and attribute options
 	Bad  int   `json:"bad,omitempty"`  // opInst: 1-4 a name the SDK rejects, 5 the longest valid name
 	Prov int   `json:"prov,omitempty"` // installs: 1 = a provider value of a non-comparable type
+	Alt  int   `json:"alt,omitempty"`  // opMeter (key+1) / opTracer (id): that identity with DIFFERENT instrumentation attributes
 }
 
 type Storm struct {
@@ -139,7 +140,7 @@ func runSeq(w *world, steps []Step, res *result) {
 			if s.Same > 0 {
 				same = s.Same - 1 // meter keys start at 0
 			}
-			w.opMeter(s.Arg, same, s.Opt, s.Via)
+			w.opMeter(s.Arg, same, s.Alt-1, s.Opt, s.Via)
 		case opInst:
 			var same *inst
 			if s.Same > 0 {
@@ -163,7 +164,7 @@ func runSeq(w *world, steps []Step, res *result) {
 		case opInstall:
 			w.opInstallV(s.Prov)
 		case opTracer:
-			w.opTracer(j, s.Same, s.Opt, s.Via)
+			w.opTracer(j, s.Same, s.Alt, s.Opt, s.Via)
 		case opSpan:
 			w.opSpan(j, s.Arg)
 		case opInstallT:
@@ -211,7 +212,7 @@ func runStorm(w *world, c *Storm, res *result) {
 	// ---- before the storm: everything through the not-yet-delegated global API ----
 	var preRegs []*regH
 	for k := 0; k < c.Meters; k++ {
-		w.opMeter(k, -1, root.Bool(), root.Intn(2))
+		w.opMeter(k, -1, -1, root.Bool(), root.Intn(2))
 		p.meters = append(p.meters, k)
 		var mine []*inst
 		mk := func(kind int, same *inst) {
@@ -247,10 +248,20 @@ func runStorm(w *world, c *Storm, res *result) {
 			}
 		}
 	}
+	if c.Meters > 0 {
+		ka := c.Meters + 20 // meter 0's identity with different instrumentation attributes
+		w.opMeter(ka, -1, 0, false, 0)
+		p.meters = append(p.meters, ka)
+		addInst(w.opInst(id(), ka, root.Intn(8), nil, false, 0))
+		addInst(w.opInst(id(), ka, 8+root.Intn(6), nil, false, 0))
+	}
 	for i := 0; i < 2; i++ {
 		t := id()
-		w.opTracer(t, 0, root.Bool(), root.Intn(2))
+		w.opTracer(t, 0, 0, root.Bool(), root.Intn(2))
 		p.trs = append(p.trs, t)
+		t2 := id() // the same tracer except for its instrumentation attributes
+		w.opTracer(t2, 0, t, false, 0)
+		p.trs = append(p.trs, t2)
 	}
 	// ---- the storm ----
 	start := make(chan struct{})
@@ -324,7 +335,7 @@ func runStorm(w *world, c *Storm, res *result) {
 				p.mu.Unlock()
 				if r.Chance(1, 8) {
 					k = c.Meters + r.Intn(4) // a meter first asked for during the storm
-					w.opMeter(k, -1, k%2 == 0, r.Intn(2))
+					w.opMeter(k, -1, -1, k%2 == 0, r.Intn(2))
 					p.mu.Lock()
 					p.meters = append(p.meters, k)
 					p.mu.Unlock()
@@ -439,7 +450,13 @@ func runStorm(w *world, c *Storm, res *result) {
 						same = p.trs[r.Intn(len(p.trs))]
 						p.mu.Unlock()
 					}
-					w.opTracer(t, same, r.Bool(), r.Intn(2))
+					alt := 0
+					if same == 0 && r.Chance(1, 4) {
+						p.mu.Lock()
+						alt = p.trs[r.Intn(len(p.trs))]
+						p.mu.Unlock()
+					}
+					w.opTracer(t, same, alt, r.Bool(), r.Intn(2))
 					p.mu.Lock()
 					p.trs = append(p.trs, t)
 					p.mu.Unlock()
